@@ -23,7 +23,7 @@ class C08(Check):
                    'repeated interior knots have multiplicity <= order-1 (spline stays continuous); for order 1 a point on an '
                    'interior knot may take either neighbouring coefficient',
                    'everyn with nx//everyn < 2 is the open finding everyn_single_breakpoint (see known_findings.json)']
-    REQUIRED_COUNTERS = ('knots_through_iterfit_unsorted_data', 'canary_sequences', 'single_point_evaluations', 'presorted_evaluations', 'opt_bkspace', 'opt_nbkpts', 'opt_everyn', 'opt_placed', 'opt_bkpt', 'not_cover_adjusted',
+    REQUIRED_COUNTERS = ('value_with_precomputed_action', 'mask_changed_on_evaluated_object', 'knots_through_iterfit_unsorted_data', 'canary_sequences', 'single_point_evaluations', 'presorted_evaluations', 'opt_bkspace', 'opt_nbkpts', 'opt_everyn', 'opt_placed', 'opt_bkpt', 'not_cover_adjusted',
                          'points_compared_inside', 'points_outside_checked', 'unsorted_inputs', 'float32_inputs',
                          'scipy_agreements')
     CASE_CPU_S = 60
@@ -316,6 +316,44 @@ class C08(Check):
             ys_, ms_ = s.value(xe[idx].copy())
             same(ys_, ms_, idx, what)
         out.count('presorted_evaluations', 2)
+        # ---- the documented keyword form: an action matrix precomputed for the points in increasing order (as action() requires)
+        #      handed to value() together with the points in the caller's order
+        with warnings.catch_warnings():
+            warnings.simplefilter('ignore')
+            act = s.action(np.sort(xe))
+        if isinstance(act, tuple) and len(act) == 3 and isinstance(act[0], np.ndarray):
+            yk, mk = s.value(xe, action=act[0], lower=act[1], upper=act[2])
+            same(np.asarray(yk), np.asarray(mk), np.arange(xe.size), 'the caller\'s points with action=/lower=/upper= precomputed')
+            out.count('value_with_precomputed_action')
+        # ---- a breakpoint masked on an object that has already been evaluated: the object must answer like a fresh one on which
+        #      the same breakpoint was masked before its first evaluation (nothing derived from the old mask may be remembered)
+        if nt - 2 * (k - 1) >= 2 * k + 2:
+            j = int(g.integers(k, nt - k))
+            with warnings.catch_warnings():
+                warnings.simplefilter('ignore')
+                fresh = B.bspline(x, nord=k, **kw)
+                fresh.coeff = c.copy()
+                fresh.mask[j] = False
+                s.mask[j] = False
+
+                def ev(obj):
+                    try:
+                        yy, mm = obj.value(xe)
+                        return ('ok', np.asarray(yy, dtype='f8'), np.asarray(mm))
+                    except Exception as e:
+                        return ('raised', type(e).__name__)
+                ra, rb = ev(s), ev(fresh)
+                s.mask[j] = True
+            if ra[0] == 'ok' and rb[0] == 'ok':
+                fin = np.isfinite(ra[1]) & np.isfinite(rb[1])
+                okv = bool(np.array_equal(np.isfinite(ra[1]), np.isfinite(rb[1]))) and \
+                    bool(np.all(np.abs(ra[1][fin] - rb[1][fin]) <= tol1 * 10)) and bool(np.array_equal(ra[2], rb[2]))
+                out.expect(okv, 'order', 'after masking breakpoint %d an already evaluated object answers differently from a fresh '
+                           'object with the same breakpoint masked' % j)
+            else:
+                out.expect(ra[0] == rb[0] and ra[1:] == rb[1:], 'order', 'after masking breakpoint %d an already evaluated object %s, '
+                           'a fresh object with the same mask %s' % (j, ra[:2], rb[:2]))
+            out.count('mask_changed_on_evaluated_object')
         # ---- (c) basis: non-negative, sums to one on the range
         xs = np.sort(xe[inside & ~at_discont])
         if xs.size:
